@@ -103,7 +103,7 @@ def run_property(pid, tier, seed, jobs):
     status = 0
     if new:
         status = 1
-        rdir = os.path.join(HERE, 'replays', pid)
+        rdir = os.path.join(os.environ.get('VT_REPLAY_DIR') or os.path.join(HERE, 'replays'), pid)
         os.makedirs(rdir, exist_ok=True)
         groups = {}
         for v in new:
